@@ -541,6 +541,7 @@ def run(ctx, replay_lines=None):
     # (D) correspondence with the Lean model
     diffs = []
     model_lines = 0
+    phys_faults = []
     exe = ctx.driver() if have_lean else None
     if exe:
         mlines = []
@@ -555,6 +556,12 @@ def run(ctx, replay_lines=None):
             for r in ex.map(lambda b: ctx.model(b, exe=exe), blocks):
                 mouts += r
         model_lines = len(mouts)
+        phys_faults = [l for l, b in zip(lines, mouts) if "PHYS-FAULT" in b]
+        if phys_faults:
+            # a checked memory access of the physical machine (Parse/Phys.lean) failed on a concrete history: Props.C11.phys_api_history_safe
+            # says this cannot happen -- the machine or its invariants no longer describe the run
+            broken.append("physical machine: a checked memory access failed in %d runs, first %s" % (len(phys_faults), phys_faults[0][:300]))
+            ctx.broken.append(broken[-1])
         for l, a, b in zip(lines, outs, mouts):
             if " ".join(a.split()) != " ".join(b.split()):
                 diffs.append({"case": l, "impl": a, "model": b})
@@ -752,6 +759,7 @@ def run(ctx, replay_lines=None):
         "oracle_failures": len(fails), "history_independence_forms_checked": hist_checked, "history_independence_error_forms": hist_errors, "sequence_texts": len(seqs), "correspondence_runs": model_lines, "correspondence_diffs": len(diffs),
         "jdn_terms": len(rt_lines), "jdn_results": dict(rt_stats), "jdn_printer_correspondence_diffs": len(pdiffs),
         "capacity_dumps_compared": sum(o.count(" cap:") for o in outs) if exe else 0,
+        "physical_machine_runs": model_lines, "physical_machine_faults": len(phys_faults),
         "jdn_model_roundtrip_diffs": len(mdiffs), "jdn_output_texts_through_both_parsers": len(jtexts), "jdn_output_parser_runs": jruns,
         "jdn_output_parser_diffs": len(jdiffs),
         "jdn_output_len_min_med_max": ([min(len(t["bytes"]) for t in jtexts), sorted(len(t["bytes"]) for t in jtexts)[len(jtexts) // 2],
